@@ -34,10 +34,18 @@ def sh(cmd):
     return subprocess.run(cmd, shell=True, capture_output=True, text=True)
 
 
+# RECORD_REPO=<scratch worktree of /repo>: apply the change there and point the checks at it with VMC_REPO (lets several
+# evaluations run side by side and leaves /repo alone); default: /repo itself, as described in DESIGN.md 9.5
+REPO = os.environ.get("RECORD_REPO", "/repo")
+ENVP = ("VMC_REPO=%s " % REPO) if REPO != "/repo" else ""
+if os.environ.get("RECORD_NPROC"):
+    ENVP += "VMC_NPROC=%s " % os.environ["RECORD_NPROC"]
+
+
 def main():
     only = sys.argv[1:]
     ids = sorted(f[:-6] for f in os.listdir(OUT) if f.endswith(".patch"))
-    assert sh("git -C /repo diff --quiet").returncode == 0
+    assert sh("git -C %s diff --quiet" % REPO).returncode == 0
     for mid in ids:
         if only and mid not in only:
             continue
@@ -50,13 +58,13 @@ def main():
         shutil.copy(os.path.join(OUT, mid + "_demo.py"), os.path.join(d, "demo.py"))
         desc = open(os.path.join(OUT, mid + ".md")).read() if os.path.exists(os.path.join(OUT, mid + ".md")) else ""
         results = []
-        assert sh("git -C /repo apply %s" % os.path.join(d, "patch.diff")).returncode == 0, mid
+        assert sh("git -C %s apply %s" % (REPO, os.path.join(d, "patch.diff"))).returncode == 0, mid
         try:
             for c in checks:
                 tier = "quick"
                 if ":" in c:
                     c, tier = c.split(":")
-                r = sh("cd /verif && timeout 2400 ./check %s --tier %s" % (c, tier))
+                r = sh("cd /verif && %stimeout 2400 ./check %s --tier %s" % (ENVP, c, tier))
                 viol = [l for l in r.stdout.splitlines() if l.startswith("VIOLATION")]
                 keys = []
                 ev = os.path.join("/verif/evidence", c + ".json")
@@ -67,7 +75,7 @@ def main():
                 results.append({"check": c, "tier": tier, "exit_code": r.returncode, "detected": r.returncode == 1 and bool(viol),
                                 "violation_keys": keys, "first_violation": (viol[0].split("#", 1)[1].strip()[:300] if viol else None)})
         finally:
-            sh("git -C /repo checkout -- .")
+            sh("git -C %s checkout -- ." % REPO)
         meta = {
             "id": mid, "property": prop,
             "origin": "written by an independent sub-agent that saw only the property text and a scratch worktree of /repo (nothing from /verif)"
